@@ -189,6 +189,7 @@ var_opt_union<T, A> var_opt_union<T, A>::deserialize(const void* bytes, size_t s
 
   check_preamble_longs(preamble_longs, flags);
   check_family_and_serialization_version(family_id, serial_version);
+  ensure_minimum_memory(size, preamble_longs << 3);
 
   if (max_k == 0 || max_k > var_opt_constants::MAX_K) {
     throw std::invalid_argument("k must be at least 1 and less than 2^31 - 1");
